@@ -3,9 +3,14 @@ import time, z3
 from . import reduce as R
 from .values import toz3
 
+EXPORT = [False]          # thorough tier: keep the deciding query (assumptions incl. lemmas, goal) so that a second solver can re-check it
 class Verdict:
-    def __init__(self, status, backend, secs, model=None, lemmas=0, detail=""):
+    def __init__(self, status, backend, secs, model=None, lemmas=0, detail="", query=None):
         self.status, self.backend, self.secs, self.model, self.lemmas, self.detail = status, backend, secs, model, lemmas, detail
+        self.query = query if EXPORT[0] else None
+    def smt2(self):
+        if self.query is None: return None
+        sv = z3.Solver(); sv.add(*self.query[0]); sv.add(z3.Not(self.query[1])); return sv.to_smt2()
     def __repr__(self): return f"{self.status}[{self.backend},{self.secs:.2f}s,lem={self.lemmas}]"
 
 def _check(assumptions, goal, timeout_ms):
@@ -103,13 +108,13 @@ def prove(pc, goal, timeout_ms=10000, axioms=True):
     if z3.is_true(z3.simplify(goal)): return Verdict("proved", "trivial", time.time() - t0)
     pc = pc + instantiate_hyps(pc, goal)
     r0, _ = _check(pc, goal, min(timeout_ms, 3000))                 # fast path: no lemmas needed
-    if r0 == z3.unsat: return Verdict("proved", "z3", time.time() - t0)
+    if r0 == z3.unsat: return Verdict("proved", "z3", time.time() - t0, query=(pc, goal))
     apps0 = R.collect_deep(pc + [goal])
     facts = R.qf_facts(list(apps0.values()))
     pc = pc + facts
     lem = congruence_lemmas(pc, pc + [goal], timeout_ms)
     r, m = _check(pc + lem, goal, timeout_ms)
-    if r == z3.unsat: return Verdict("proved", "z3", time.time() - t0, lemmas=len(lem))
+    if r == z3.unsat: return Verdict("proved", "z3", time.time() - t0, lemmas=len(lem), query=(pc + lem, goal))
     ax = []
     if axioms:
         apps = {}
@@ -118,7 +123,7 @@ def prove(pc, goal, timeout_ms=10000, axioms=True):
         if ax:
             lem2 = lem
             r2, _ = _check(pc + lem2 + ax, goal, timeout_ms)
-            if r2 == z3.unsat: return Verdict("proved", "z3", time.time() - t0, lemmas=len(lem2), detail="with reduction axioms")
+            if r2 == z3.unsat: return Verdict("proved", "z3", time.time() - t0, lemmas=len(lem2), detail="with reduction axioms", query=(pc + lem2 + ax, goal))
     if r == z3.sat: return Verdict("refuted", "z3", time.time() - t0, model=m, lemmas=len(lem), detail="model of the quantifier-free core")
     return Verdict("unknown", "z3", time.time() - t0, lemmas=len(lem))
 
